@@ -81,6 +81,8 @@ pub struct BuildOpts {
     /// follow the outer builder's shared pool slot), 2 = like 1, with a one-thread decoy pool attached
     /// first and replaced at the end
     pub pool_attach: u8,
+    /// attach no pool at all: the dispatcher creates rayon's default pool for itself
+    pub no_pool: bool,
 }
 
 static PRINT_LOCK: Mutex<()> = Mutex::new(());
@@ -135,6 +137,7 @@ impl Default for BuildOpts {
             capture_debug: false,
             call_print: false,
             pool_attach: 0,
+            no_pool: false,
         }
     }
 }
@@ -552,7 +555,7 @@ pub fn build_plan(
 ) -> Result<Built, String> {
     let flat = Arc::new(crate::plan::compile(&plan.to_vec()));
     let ctx = Ctx::new(flat.clone());
-    let b = build_builder(plan, &flat, 0, &ctx, Some(pool.clone()), opts)
+    let b = build_builder(plan, &flat, 0, &ctx, if opts.no_pool { None } else { Some(pool.clone()) }, opts)
         .map_err(|e| format!("builder panicked at op {:?}: {}", e.path, e.msg))?;
     fn has_rejected(ops: &[Op]) -> bool {
         ops.iter().any(|o| match o {
